@@ -31,7 +31,7 @@ def one(patch):
         rc, out = sh('git apply %s' % patch, cwd=wt)
         if rc != 0:
             return name, None, {'apply': out[-200:]}
-        if 'lexer.l' in open(patch).read():
+        if '+++ b/Compiler/src/lexer.l' in open(patch).read():
             sh('flex --outfile=./src/lex.yy.c --header-file=./include/lex.yy.h --noline --nounistd ./src/lexer.l', cwd=os.path.join(wt, 'Compiler'))
         man = json.load(open(os.path.join(VERIF, 'MANIFEST.json')))
         env = dict(os.environ, VERIF_REPO=wt, VERIF_EVIDENCE_DIR=os.path.join(wt, '_evidence'), VERIF_NO_SELFTEST='1')
